@@ -26,3 +26,95 @@ Check deferring_implies_pending :
        forall p fs, In (p, fs) (pending_of s) -> exists f, In f fs)
     /\ (is_completed s = true -> pending_of s = []).
 Print Assumptions deferring_implies_pending.
+
+(* (2) Refinement of the Spec: on every history that respects the driver's
+   session discipline, while the machine has not completed, peer p is recorded
+   as awaiting family f exactly when the Spec (Spec/DeferralSpec.v spec_blocks:
+   configured for f and since then no End-of-RIB for f, no drop, no
+   establishment without f) says p still holds f back. *)
+Theorem pending_refines_spec :
+  forall (c : config) (d : option N) (ins : list rdinput) (p : peer) (f : fam),
+    NoDup (map fst c) -> disciplined c ins = true ->
+    let s := rd_run (fst (rd_new c d)) ins in
+    is_completed s = false ->
+    mem f (get_or_nil (pending_of s) p) = spec_blocks c ins p f.
+Proof. exact C11_pending_refines_spec. Qed.
+Check pending_refines_spec :
+  forall (c : config) (d : option N) (ins : list rdinput) (p : peer) (f : fam),
+    NoDup (map fst c) -> disciplined c ins = true ->
+    let s := rd_run (fst (rd_new c d)) ins in
+    is_completed s = false ->
+    mem f (get_or_nil (pending_of s) p) = spec_blocks c ins p f.
+Print Assumptions pending_refines_spec.
+
+(* (3) Release counts, for every disciplined history: new() releases nothing; a
+   family is released (FamilyDeferralComplete f, or EndDeferral listing f) at
+   most once; a family that was not deferred never; once the machine is
+   Completed every deferred family has been released exactly once; and while it
+   is not Completed a family has been released iff it was deferred and no
+   helper peer holds it back any more (so it is neither early nor late). *)
+Theorem family_released_exactly_once :
+  forall (c : config) (d : option N) (ins : list rdinput) (f : fam),
+    NoDup (map fst c) -> disciplined c ins = true ->
+    let s := rd_run (fst (rd_new c d)) ins in
+    let n := releases f (rd_trace (fst (rd_new c d)) ins) in
+    releases_in f (snd (rd_new c d)) = 0%nat
+    /\ (n <= 1)%nat
+    /\ (deferred c f = false -> n = 0%nat)
+    /\ (is_completed s = true -> deferred c f = true -> n = 1%nat)
+    /\ (is_completed s = false ->
+        n = if deferred c f && negb (spec_blocked c ins f) then 1%nat else 0%nat).
+Proof. exact C11_family_released_exactly_once. Qed.
+Check family_released_exactly_once :
+  forall (c : config) (d : option N) (ins : list rdinput) (f : fam),
+    NoDup (map fst c) -> disciplined c ins = true ->
+    let s := rd_run (fst (rd_new c d)) ins in
+    let n := releases f (rd_trace (fst (rd_new c d)) ins) in
+    releases_in f (snd (rd_new c d)) = 0%nat
+    /\ (n <= 1)%nat
+    /\ (deferred c f = false -> n = 0%nat)
+    /\ (is_completed s = true -> deferred c f = true -> n = 1%nat)
+    /\ (is_completed s = false ->
+        n = if deferred c f && negb (spec_blocked c ins f) then 1%nat else 0%nat).
+Print Assumptions family_released_exactly_once.
+
+(* (4) Every single release is justified when it happens: the step that
+   releases f either leaves no helper peer holding f back, or is the expiry of
+   the selection-deferral timer. *)
+Theorem release_only_when_unblocked_or_timer :
+  forall (c : config) (d : option N) (h : list rdinput) (i : rdinput) (rest : list rdinput) (f : fam),
+    NoDup (map fst c) -> disciplined c (h ++ i :: rest) = true ->
+    let s := rd_run (fst (rd_new c d)) h in
+    (releases_in f (snd (rd_step s i)) > 0)%nat ->
+    spec_blocked c (h ++ [i]) f = false \/ i = TimerExpired.
+Proof. exact C11_release_only_when_unblocked_or_timer. Qed.
+Check release_only_when_unblocked_or_timer :
+  forall (c : config) (d : option N) (h : list rdinput) (i : rdinput) (rest : list rdinput) (f : fam),
+    NoDup (map fst c) -> disciplined c (h ++ i :: rest) = true ->
+    let s := rd_run (fst (rd_new c d)) h in
+    (releases_in f (snd (rd_step s i)) > 0)%nat ->
+    spec_blocked c (h ++ [i]) f = false \/ i = TimerExpired.
+Print Assumptions release_only_when_unblocked_or_timer.
+
+(* (5) A peer without graceful restart never blocks: a peer configured with no
+   GR family is never pending; whatever the state, a peer that establishes
+   without GR is no longer pending afterwards, the other peers' entries are
+   untouched, and if it was the last pending peer the machine is Completed. *)
+Theorem non_gr_peer_never_blocks :
+  forall (c : config) (d : option N) (ins : list rdinput) (p : peer),
+    let s := rd_run (fst (rd_new c d)) ins in
+    let s' := fst (rd_step s (PeerEstablished p [])) in
+    (NoDup (map fst c) -> cfg_fams c p = [] -> p_get (pending_of s) p = None)
+    /\ p_get (pending_of s') p = None
+    /\ (forall q, q <> p -> p_get (pending_of s') q = p_get (pending_of s) q)
+    /\ ((forall q, q <> p -> p_get (pending_of s) q = None) -> is_completed s' = true).
+Proof. exact C11_non_gr_peer_never_blocks. Qed.
+Check non_gr_peer_never_blocks :
+  forall (c : config) (d : option N) (ins : list rdinput) (p : peer),
+    let s := rd_run (fst (rd_new c d)) ins in
+    let s' := fst (rd_step s (PeerEstablished p [])) in
+    (NoDup (map fst c) -> cfg_fams c p = [] -> p_get (pending_of s) p = None)
+    /\ p_get (pending_of s') p = None
+    /\ (forall q, q <> p -> p_get (pending_of s') q = p_get (pending_of s) q)
+    /\ ((forall q, q <> p -> p_get (pending_of s) q = None) -> is_completed s' = true).
+Print Assumptions non_gr_peer_never_blocks.
